@@ -6,7 +6,7 @@ Nothing here runs a handler: the clauses look at the received message, the regis
 buffers, the configuration and the generated constants / type-name tables only.  (The import of
 `Model/Handlers.lean` is for the pure helper `nextId`, "max(nodes) + 1 if nodes else 1".)  That the
 handler model writes exactly these lines is theorem `C06.writes_eq_expected`; what it attempts
-under an arbitrary schedule of failing writes is `C06.writes_eq_attempts`.
+under an arbitrary schedule of completing, failing and cancelled writes is `C06.writes_eq_attempts`.
 -/
 import AioMySensors.Model.Handlers
 
@@ -157,27 +157,45 @@ def last (st : St) (m : Msg) : List Msg := if m.cmd = Gen.cmdInternal then [] el
 /-- The messages written in reaction to `m`, in order. -/
 def expectedMsgs (env : Env) (st : St) (m : Msg) : List Msg := first env st m ++ query st m ++ last st m
 
-/-! ### Failing writes -/
+/-! ### Writes that do not complete
 
-/-- Write the lines in order; the first failing write (`true` in the schedule; the schedule running
-out means success) ends the attempt. Result: the attempts made, the schedule left, whether one failed. -/
-def attempt : List Str → List Bool → List WriteEvt × List Bool × Bool
-  | [], fs => ([], fs, false)
-  | l :: _, true :: fs => ([⟨l, false⟩], fs, true)
-  | l :: ls, false :: fs => let r := attempt ls fs; (⟨l, true⟩ :: r.1, r.2.1, r.2.2)
+A coming write attempt either completes (`pass`), fails in the transport (`fail`), or is where the
+task gets cancelled (`cancel`).  For *which lines are attempted* the last two are the same: the
+attempt is logged as not written and ends its segment. They differ in the exception the step ends in. -/
+
+/-- Does the write complete under this fault? -/
+def _root_.AioMySensors.Fault.ok (f : Fault) : Bool := f.exn.isNone
+
+/-- Attempts made, the schedule left, and the exception of the attempt that did not complete
+(`none`: all completed). -/
+abbrev Att := List WriteEvt × List Fault × Option Exn
+
+/-- Write the lines in order; the first write that does not complete (`fail` or `cancel` in the
+schedule; the schedule running out means success) ends the attempt with that fault's exception. -/
+def attempt : List Str → List Fault → Att
+  | [], fs => ([], fs, none)
   | l :: ls, [] => let r := attempt ls []; (⟨l, true⟩ :: r.1, r.2.1, r.2.2)
+  | l :: ls, f :: fs =>
+    match f.exn with
+    | some e => ([⟨l, false⟩], fs, some e)
+    | none => let r := attempt ls fs; (⟨l, true⟩ :: r.1, r.2.1, r.2.2)
 
-/-- One attempt after another: the second runs on the schedule the first left. -/
-def andThen (a : List WriteEvt × List Bool × Bool) (next : List Bool → List WriteEvt × List Bool × Bool) :
-    List WriteEvt × List Bool × Bool :=
-  (a.1 ++ (next a.2.1).1, (next a.2.1).2.1, a.2.2 || (next a.2.1).2.2)
+/-- One attempt after another: the second runs on the schedule the first left; an exception of the
+second replaces one of the first (as an exception raised in a `finally` clause does). -/
+def andThen (a : Att) (next : List Fault → Att) : Att :=
+  (a.1 ++ (next a.2.1).1, (next a.2.1).2.1, (next a.2.1).2.2.or a.2.2)
 
-/-- The write attempts of one step under a schedule of failing writes: the first segment up to its
-first failure; then the version query in any case (it is sent from a `finally` clause); then the
-last segment only if nothing failed before. -/
-def attempts (env : Env) (st : St) (m : Msg) (faults : List Bool) : List WriteEvt × List Bool × Bool :=
+/-- The write attempts of one step under a schedule: the first segment up to its first write that
+does not complete; then the version query in any case (it is sent from a `finally` clause, which
+also runs when the task was cancelled); then the last segment only if everything before completed. -/
+def attempts (env : Env) (st : St) (m : Msg) (faults : List Fault) : Att :=
   let a := andThen (attempt ((first env st m).map encode) faults) (attempt ((query st m).map encode))
-  andThen a fun fs => if a.2.2 then ([], fs, false) else attempt ((last st m).map encode) fs
+  andThen a fun fs => if a.2.2.isSome then ([], fs, none) else attempt ((last st m).map encode) fs
+
+/-- The exception of the last write of a schedule prefix that does not complete. -/
+def lastExn : List Fault → Option Exn
+  | [] => none
+  | f :: fs => (lastExn fs).or f.exn
 
 end WriteSpec
 
@@ -185,8 +203,14 @@ end WriteSpec
 are written, when no write fails. -/
 def expectedWrites (env : Env) (st : St) (m : Msg) : List Str := (WriteSpec.expectedMsgs env st m).map encode
 
-/-- The write attempts of the step under a schedule of failing writes. -/
-def expectedAttempts (env : Env) (st : St) (m : Msg) (faults : List Bool) : List WriteEvt :=
+/-- The write attempts of the step under a schedule of completing / failing / cancelled writes. -/
+def expectedAttempts (env : Env) (st : St) (m : Msg) (faults : List Fault) : List WriteEvt :=
   (WriteSpec.attempts env st m faults).1
+
+/-- The exception the step ends in because of its writes: that of the last attempt that did not
+complete (a failing version query in the `finally` clause replaces the handler's exception);
+`none` if every attempt completed. -/
+def expectedExn (env : Env) (st : St) (m : Msg) (faults : List Fault) : Option Exn :=
+  (WriteSpec.attempts env st m faults).2.2
 
 end AioMySensors
